@@ -372,6 +372,12 @@ struct H
 
   void verify(const char* after)
   {
+    // C09: the operation worked on v0; a handle it did not name must still hold its value (a shared payload modified in place shows here)
+    for(int i = 1; i < 3; ++i)
+    {
+      struct F { H* h; int i; const char* after; void operator()() { h->cmp(*h->v[i], h->m[i], vf::fmt("v%d", i), after); } } f = {this, i, after};
+      VF_CHECK(vf::holds(f), "C09:Variant:modified-in-place", "after %s: v%d changed although the operation was applied to v0 (payload modified while another handle refers to it)", after, i);
+    }
     for(int i = 0; i < 3; ++i) cmp(*v[i], m[i], vf::fmt("v%d", i), after);
     // a Variant compares equal to every copy of itself (model-equal values of the same type)
     for(int i = 0; i < 3; ++i) for(int j = 0; j < 3; ++j)
